@@ -130,6 +130,19 @@ def fam_prims(sink, rng, tier):
                     bnd = not np.cross(d0, nn).any() and not np.cross(x0 - np.array(B.p["c"], dtype=float), nn).any()
                 sink.call("distance." + fname, "closed", 1e-9 * L, args, lambda: f(*args), post=post, boundary=bnd,
                           zone="clamped_line_optimum" if fname == "line_segment_to_circle" else "none")
+    # the systematic family of exactly parallel / antiparallel / collinear line-like pairs (same line given by two base points
+    # included), identity and one rigid lift each: the distance only (closest points are not unique)
+    from .props.c10 import parallel_family
+    fam = parallel_family()
+    if tier == "quick":
+        fam = fam[::3]
+    for fname, A, B in fam:
+        f = getattr(dd, fname)
+        for lk in ("id", "rigid1"):
+            lift = prim_lift(rng, A, B, lk)
+            args = [np.array(a, dtype=float) if isinstance(a, np.ndarray) else a for a in A.args(lift) + B.args(lift)]
+            L = scale_of(*[a for a in args if isinstance(a, np.ndarray)])
+            sink.call("distance." + fname + "[parallel]", "closed", 1e-9 * L, args, lambda: f(*args), post=lambda out: [float(out[0])])
     # exactly degenerate arguments of the point queries: the point on the axis / in the centre / on the rim
     c = np.array([0.5, -1.0, 2.0]); n = np.array([0.0, 0.0, 1.0])
     for p in (c, c + 2.0 * n, c - 3.0 * n, c + np.array([1.0, 0, 0]), c + np.array([1.0, 0, 1.0])):
@@ -323,6 +336,21 @@ def fam_hydro(sink, rng, tier):
         sink.call("intersect_halfplanes", "closed", 1e-9, [hp2], lambda: HP.intersect_halfplanes(hp2),
                   post=lambda P: [int(len(P))] + sorted(round(float(x), 9) for x in np.asarray(P).sum(axis=1)) if k % 2 == 0 else [int(len(P))],
                   boundary=(k % 2 == 1))
+    # half-plane sets with repeated boundary lines (coinciding tetrahedron faces produce them): every polygon vertex is then the
+    # intersection of several pairs of rows, the number of candidate vertices grows quadratically with the multiplicity
+    for k in range(12 if tier == "quick" else 120):
+        nl, mult = rng.choice(((3, 3), (4, 2), (4, 3), (3, 4), (5, 2), (4, 4)))
+        lines = [(1, 0), (0, 1), (-1, 0), (0, -1), (-1, -1), (1, 1)][:nl] if nl <= 4 else [(1, 0), (0, 1), (-1, 0), (0, -1), (-1, -1)]
+        if nl == 3:
+            lines = [(1, 0), (0, 1), (-1, -1)]
+        rows = []
+        for (nx, ny) in lines:
+            nrm = math.hypot(nx, ny)
+            off = rng.choice((1.0, 2.0))
+            rows += [[-nx * off / nrm, -ny * off / nrm, ny, -nx]] * mult
+        rng.shuffle(rows)
+        hp3 = np.ascontiguousarray(np.array(rows, dtype=float))
+        sink.call(f"intersect_halfplanes[{nl}x{mult}]", "closed", 1e-9, [hp3], lambda: HP.intersect_halfplanes(hp3), post=lambda P: [int(len(P))])
     # contact force of ordered polygons with 3 .. 12 vertices (the tesselation table holds 6 triangles)
     tet = np.array([[0.0, 0, 0], [4, 0, 0], [0, 4, 0], [0, 0, 4]])
     eps_ = np.array([0.0, 0.0, 0.0, 1.0])
